@@ -11,10 +11,50 @@ UNSEEDED = ('numpy.random.default_rng', 'numpy.random.Generator', 'numpy.random.
 FLOOR_DRAWS = 8
 
 
+def _call_local_classes(model):
+    """private helper classes (class _Name) every instantiation of which is bound to a plain local name inside a function: their attributes live and die with the call"""
+    out = set()
+    for q, c in model.classes.items():
+        nm = q.rsplit('.', 1)[-1]
+        if not nm.startswith('_') or nm.startswith('__'):
+            continue
+        ok, n = True, 0
+        for mod in model.modules.values():
+            parents = {}
+            for x in ast.walk(mod.tree):
+                for ch in ast.iter_child_nodes(x):
+                    parents[id(ch)] = x
+            for x in ast.walk(mod.tree):
+                if isinstance(x, ast.Call) and model.resolve(mod, x.func) == q:
+                    n += 1
+                    par = parents.get(id(x))
+                    if not (isinstance(par, ast.Assign) and len(par.targets) == 1 and isinstance(par.targets[0], ast.Name)):
+                        ok = False
+                        continue
+                    g = parents.get(id(par))
+                    while g is not None and not isinstance(g, (ast.FunctionDef, ast.Module, ast.ClassDef)):
+                        g = parents.get(id(g))
+                    if not isinstance(g, ast.FunctionDef):
+                        ok = False
+                        continue
+                    name = par.targets[0].id
+                    # the instance does not escape: not returned, not stored in an attribute / container, not passed on
+                    for y in ast.walk(g):
+                        if isinstance(y, ast.Return) and y.value is not None and any(isinstance(z, ast.Name) and z.id == name for z in ast.walk(y.value)):
+                            ok = False
+                        if isinstance(y, ast.Assign) and any(isinstance(t, (ast.Attribute, ast.Subscript)) for t in y.targets) and any(isinstance(z, ast.Name) and z.id == name for z in ast.walk(y.value)):
+                            ok = False
+        if ok and n:
+            out.add(q)
+    return out
+
+
 def _addr_use_ok(c, p, local=None):
     """an address (id()/hash() result) may only be tested for membership in / added to / used as a key of a container that is LOCAL to the call:
     an address-keyed attribute or global outlives the objects, and CPython re-uses addresses of dead objects (history-dependent results)"""
     def loc(e):
+        if isinstance(e, ast.Attribute) and isinstance(e.value, ast.Name) and local is not None and ('self.*' in local) and e.value.id == 'self':
+            return True     # attribute of an instance of a private helper class that never leaves the call that created it
         return local is None or (isinstance(e, ast.Name) and e.id in local)
     if isinstance(p, ast.Compare) and all(isinstance(o, (ast.In, ast.NotIn)) for o in p.ops) and p.left is c:
         return all(loc(x) for x in p.comparators)
@@ -138,6 +178,12 @@ def check(model, R, tier):
     check_uninit(model, R)
     # ---------------------------------------------------------------- NOADDR
     n_id = 0
+    call_local = _call_local_classes(model)
+    def _locals(fn_, _base=globals()['_locals']):
+        base = set(_base(fn_))
+        if fn_.cls is not None and fn_.cls.qualname in call_local:
+            base.add('self.*')
+        return base
     for fn in model.live_funcs():
         if fn.mod.modname.startswith('synapgrad.visual'):
             continue
